@@ -415,6 +415,9 @@ func (x *xtr) format(c *ast.CallExpr) string {
 			nilText := map[byte]string{'v': "<nil>", 'w': "%!w(<nil>)", 's': "%!s(<nil>)"}[f[i+1]]
 			x.usesRtX = true
 			parts = append(parts, fmt.Sprintf("Go.fmtErr %s %s", leanString(x, c, nilText), paren(v.s)))
+		case v.ty.k == kOpaque && f[i+1] == 'v' && x.env["fmt_"+v.ty.name] != nil && x.env["fmt_"+v.ty.name].k == kFunc:
+			// the text of a value of an opaque type: the abstract function fmt_<Type> (spec.Prims "fmt_T=func(v T) string")
+			parts = append(parts, ident("fmt_"+v.ty.name)+" "+paren(v.s))
 		case v.ty.k == kAny && f[i+1] == 'v':
 			// the text of an arbitrary interface value is not modelled: the abstract parameter fmtAny
 			if !x.prims["fmtAny"] {
